@@ -1097,8 +1097,14 @@ func runStreamScenario(c StreamScenario) StressResult {
 	fs := &fragSocket{seed: c.Seed, maxChunk: c.Frag, readers: c.Readers}
 	addr := sockPath("ss")
 	opts := &rpc.Options{NewCodec: rpc.NewPBCodec}
-	if c.Codec == "alias" {
-		opts.NewCodec = func() rpc.Codec { return aliasCodec{} }
+	if nc, ok := bodyCodecOf(c.Codec); ok {
+		opts.NewCodec = nc
+	}
+	if c.SrvNoCopy && (c.Codec == "" || c.Codec == "alias" || c.Codec == "pb" || c.Codec == "code" || c.Codec == "msgp") {
+		// with Server.SetNoCopy a stream handler is handed values backed by a buffer that is already back in the pool when
+		// ReadMessage returns (documented: only for handlers and codecs that do not keep or alias what they read): such a
+		// server is driven with a codec that copies on decode
+		opts.NewCodec = rpc.NewJSONCodec
 	}
 	if c.Network == "frag" {
 		opts.NewSocket = func(*tlsConfigT) socket.Socket { return fs }
